@@ -212,6 +212,25 @@ mut("c12_no_recheck_after_sync", "src/storage/core.rs", """            if !still
 mut("c15_count_from_keys", "src/blob/index/bptree/serializer.rs", "            let headers_len = self\n                .headers_btree\n                .iter()\n                .fold(0, |acc, (_k, v)| acc + v.len());", "            let headers_len = self\n                .headers_btree\n                .iter()\n                .fold(0, |acc, (_k, v)| acc + v.len().min(1));", ["C15", "C09"], "on-disk records_count from keys")
 mut("c15_disk_used_no_active", "src/storage/core.rs", "            result += ablob.read().await.disk_used();", "            result += 0 * ablob.read().await.disk_used();", ["C15"])
 mut("c15_blobs_count_slots", "src/filter/hierarchical.rs", "        self.children.iter().flatten().count()", "        self.children.len()", ["C15"], "reverts fix F3")
+mut("c15_old_corrupted_counted_in_default_dir", "src/storage/core.rs", """            let mut corrupted_dir_path = work_dir_path.to_path_buf();
+            corrupted_dir_path.push(config.corrupted_dir_name());""", """            let mut corrupted_dir_path = work_dir_path.to_path_buf();
+            corrupted_dir_path.push("corrupted");""", ["C15", "C07"], "blobs quarantined earlier are counted in the default directory whatever Builder::corrupted_dir_name says")
+mut("c07_max_corrupted_id_default_dir", "src/storage/core.rs", """        let mut corrupted_dir_path = config.work_dir()?.to_path_buf();
+        corrupted_dir_path.push(config.corrupted_dir_name());""", """        let mut corrupted_dir_path = config.work_dir()?.to_path_buf();
+        corrupted_dir_path.push("corrupted");""", ["C07", "C15", "C03"], "ids of quarantined blobs are looked up in the default directory only: reused when the quarantine directory has another name")
+mut("c10_filter_offset_u16", "src/blob/index/bptree/core.rs", "        let fsize = header.meta_size as u64;", "        let fsize = header.meta_size as u16 as u64;", ["C03", "C10", "C01"], "tree metadata located with the filter size truncated to 16 bits: wrong only for filters above 64 KiB (pearl's default bloom configuration)")
+mut("c11_enoent_write_acknowledged", "src/record/partially_serialized.rs", """            .map_err(|e| match e.kind() {
+                kind if kind == IOErrorKind::Other || kind == IOErrorKind::NotFound => {
+                    Error::file_unavailable(kind).into()
+                }
+                _ => e.into(),
+            })""", """            .or_else(|e| match e.kind() {
+                kind if kind == IOErrorKind::Other || kind == IOErrorKind::NotFound => {
+                    Ok(PartiallySerializedWriteResult { blob_offset: 0, header_checksum: 0 })
+                }
+                _ => Err(e.into()),
+            })""", ["C11"], "an append that fails with the one error kind pearl maps to 'file unavailable' (ENOENT / Other) is acknowledged")
+mut("c16_validate_index_no_blob_size_zero", "src/tools/validation.rs", "        header.blob_size()\n    };", "        0\n    };", ["C16"], "validate_index of an index file without its blob compares against size 0")
 # ---- C16
 mut("c16_skip_off_by_header", "src/tools/blob_reader.rs", "            .checked_add(header.data_size())\n            .and_then(|x| x.checked_add(header.meta_size()))", "            .checked_add(header.data_size())", ["C16"], "skip_wrong_record_data forgets the meta size")
 mut("c16_writer_no_revalidate", "src/tools/blob_writer.rs", "            let written_record = reader.read_single_record()?;\n            if record != &written_record {", "            let written_record = reader.read_single_record()?;\n            if false && record != &written_record {", ["C16"], "EQUIVALENT unless the writer is broken: written records not compared")
